@@ -204,6 +204,10 @@ def gen_model_cfg(rng: random.Random, tb: dict, shock_prone=False) -> dict:
         N = tb["m"] * tb["n"]
         x = [sum(tb["Z"][i]) + sum(tb["Y"][i]) for i in range(N)]
         cfg["capital"] = {"kind": kind, "values": [xi * rng.uniform(0.5, 6.0) for xi in x]}
+        if min(cfg["capital"]["values"]) >= 1000 and random.Random(repr(cfg["capital"]["values"][:2])).random() < 0.2:
+            # capital given in whole units, integer dtype
+            cfg["capital"]["values"] = [float(round(v)) for v in cfg["capital"]["values"]]
+            cfg["capital"]["int_dtype"] = True
         # a labelled vector may list the industries in any order, and a DataFrame may hold them as rows or columns
         if kind in ("series", "dataframe") and rng.random() < 0.5:
             cfg["capital"]["shuffle"] = rng.randrange(1 << 30)
@@ -262,9 +266,9 @@ def build_model(tb: dict, cfg: dict, io=None, capital_perm=None, dict_order=None
     if cap["kind"] == "dict":
         kw["productive_capital_to_VA_dict"] = reorder(cap["values"])
     elif cap["kind"] == "ndarray":
-        kw["productive_capital_vector"] = np.array(cap["values"], dtype=float)
+        kw["productive_capital_vector"] = np.array(cap["values"], dtype="int64" if cap.get("int_dtype") else float)
     elif cap["kind"] == "series":
-        s = pd.Series(cap["values"], index=ind, dtype=float)
+        s = pd.Series(cap["values"], index=ind, dtype="int64" if cap.get("int_dtype") else float)
         if capital_perm is None and cap.get("shuffle") is not None:
             capital_perm = list(range(len(ind)))
             random.Random(cap["shuffle"]).shuffle(capital_perm)
@@ -272,7 +276,7 @@ def build_model(tb: dict, cfg: dict, io=None, capital_perm=None, dict_order=None
             s = s.iloc[capital_perm]
         kw["productive_capital_vector"] = s
     elif cap["kind"] == "dataframe":
-        s = pd.DataFrame({"capital": cap["values"]}, index=ind, dtype=float)
+        s = pd.DataFrame({"capital": cap["values"]}, index=ind, dtype="int64" if cap.get("int_dtype") else float)
         if capital_perm is None and cap.get("shuffle") is not None:
             capital_perm = list(range(len(ind)))
             random.Random(cap["shuffle"]).shuffle(capital_perm)
@@ -362,6 +366,12 @@ def gen_event(rng: random.Random, tb: dict, cfg: dict, T: int, etype=None, capit
             ev["house"][_key(*r2.choice(rest))] = 0.0
     else:
         ev["house"] = None
+    if etype != "arbitrary" and min(imp.values()) >= 1000 and random.Random(repr(sorted(imp.items())) + "i").random() < 0.15:
+        # damages given in whole units of the event's currency, integer dtype
+        ev["impact"] = {kk: float(round(v)) for kk, v in imp.items()}
+        if ev["house"]:
+            ev["house"] = {kk: float(round(v)) for kk, v in ev["house"].items()}
+        ev["int_dtype"] = True
     # which public constructor builds it (the scalar one is given weights proportional to the impacts)
     ev["ctor"] = rng.choice(["series", "series", "industries"])
     if etype == "rebuild":
@@ -384,9 +394,12 @@ def gen_event(rng: random.Random, tb: dict, cfg: dict, T: int, etype=None, capit
     return ev
 
 
-def _mi(dct, names):
+def _mi(dct, names, int_dtype=False):
     idx = pd.MultiIndex.from_tuples([tuple(kk.split("|")) for kk in dct.keys()], names=names)
-    return pd.Series(list(dct.values()), index=idx, dtype=float)
+    vals = list(dct.values())
+    if int_dtype and all(float(v).is_integer() for v in vals):
+        return pd.Series([int(v) for v in vals], index=idx, dtype="int64")      # whole amounts, integer dtype
+    return pd.Series(vals, index=idx, dtype=float)
 
 
 def build_event(ev: dict, order=None, shared=None):
@@ -401,13 +414,13 @@ def build_event(ev: dict, order=None, shared=None):
         random.Random(order).shuffle(keys)
         return {kk: dct[kk] for kk in keys}
 
-    imp = _mi(reorder(ev["impact"]), ["region", "sector"])
+    imp = _mi(reorder(ev["impact"]), ["region", "sector"], int_dtype=bool(ev.get("int_dtype")))
     if ev["type"] == "arbitrary":
         return bev.from_series(
             imp, event_type="arbitrary", occurrence=ev["occ"], duration=ev["dur"], name=ev.get("name"),
             recovery_tau=ev["recovery_tau"], recovery_function=curve_arg(ev["curve"]),
         )
-    house = _mi(reorder(ev["house"]), ["region", "category"]) if ev.get("house") else None
+    house = _mi(reorder(ev["house"]), ["region", "category"], int_dtype=bool(ev.get("int_dtype"))) if ev.get("house") else None
 
     def shares():
         dct = reorder(ev["reb_sectors"])
